@@ -116,7 +116,9 @@ pub struct Spec {
     #[serde(default)]
     pub place: u8,
     /// which thread executes the run: 0 = the worker's long-lived main thread, 1 = a freshly spawned unnamed
-    /// thread (its thread-locals have never been touched), 2 = a freshly spawned thread with a name
+    /// thread (its thread-locals have never been touched), 2 = a freshly spawned thread with a name, 3 = a fresh
+    /// thread that executes the run and then executes it once more while it exits (from the destructor of a
+    /// thread-local registered before the run: per-thread state of the code under test is already destroyed)
     #[serde(default)]
     pub thread: u8,
 }
